@@ -59,6 +59,9 @@ CHECKS = {
     "C19": (B, "4.19", "differential test against an independent MD5 (Python hashlib) incl. bit-flip sensitivity",
             "held on all generated (password, challenge) cases: every length 0..40 x boundary challenges, random cases, single-bit sensitivity, insensitivity to bytes beyond 32 and to output-buffer contents",
             "hashlib MD5 is the oracle; wire-level use of challenge+1/-1 is observed in Engine A runs"),
+    "C20": (A, "4.20", "socket-boundary monitor on iodined -b (forward rule, reply-routing rule against a reference window of the 16 most recent forwarded queries) + exhaustive put/get enumeration of the table in a unit driver that #includes fw_query.c",
+            "held on every executed history (requesters at many address:port pairs incl. IPv6, ids from domains of 3-20 values incl. 0, replies in any order, duplicated, unsolicited, header-less) and on every table history up to the stated depth at every ring phase",
+            "forwarded copies are compared by strict parse (id, labels, type), relayed replies byte-for-byte; a header-less reply may reach nobody or the asker of id 0"),
 }
 
 NOT_YET = "check not built yet (design in DESIGN.md section 4); will be claimed once its check runs silently on the unchanged tree"
